@@ -173,10 +173,18 @@ def run_case(ctx, idx, r, stream, lines, expect, stats):
     key = (stream, sa, sb, eta, X.tolist(), vt)
     rep = {"stream": stream, "module_a": sa, "module_b": sb, "eta": eta, "X": X, "veto": vt}
     tag = f"{sa['cls']}/{sb['cls']}"
+    preset = False
     try:
         with quiet():
-            bm = BARTMAP(make(sa), make(sb), eta)
-            alone = make(sb)
+            mb, alone = make(sb), make(sb)
+            preset = r.random() < 0.3 and sb["cls"] != "ART1"      # ART1 needs 0/1 data: no room for wider bounds
+            if preset:
+                # the column module already carries normalisation bounds (a user who fixed the feature range, or an
+                # earlier use): BARTMAP must cluster the columns exactly as THIS module would on its own
+                lo, hi = X.T.min(axis=0) - 0.5, X.T.max(axis=0) + 0.25
+                for m_ in (mb, alone):
+                    m_.prepare_data(np.vstack([lo, hi]))
+            bm = BARTMAP(make(sa), mb, eta)
     except Exception as e:
         ctx.issue("violation", f"BARTMAP.__init__:{exc_enum(e)}", f"constructor raised {e!r}", rep)
         return
@@ -301,6 +309,8 @@ def run_case(ctx, idx, r, stream, lines, expect, stats):
         ctx.issue("violation", f"BARTMAP.fit:columns-alone:{exc_enum(e)}",
                   f"column module alone raised {e!r} although BARTMAP.fit returned", rep2)
 
+    if preset:
+        cov.hit("column-module-with-preset-bounds")
     # ------------------------------------------------ coverage of what the case exercised
     if na >= 2:
         cov.hit(f"{stream}:row-clusters>=2")
